@@ -387,14 +387,12 @@ func jobsFor(prop, tier string) []*Job {
 					sh.NList = 1
 				}
 				for built := 0; built <= 1; built++ {
-					j := add("ro/"+tn(t), "ZZ_C13_ro", []string{"ro"}, append([]int{built}, sh.Args()...)...)
-					j.NoValidate = true
+					add("ro/"+tn(t), "ZZ_C13_ro", []string{"ro"}, append([]int{built}, sh.Args()...)...)
 				}
 			}
 		}
 		for _, wm := range []int{0, 1, 63} {
-			j := add("will", "ZZ_C13_will", []string{"will"}, Sh{Typ: 1, Slen: 1, NUser: 1, Will: 1 | wm<<1, Nz: 1}.Args()...)
-			j.NoValidate = true
+			add("will", "ZZ_C13_will", []string{"will"}, Sh{Typ: 1, Slen: 1, NUser: 1, Will: 1 | wm<<1, Nz: 1}.Args()...)
 		}
 	case "C14":
 		for t := 0; t <= 15; t++ {
